@@ -1,5 +1,6 @@
 from __future__ import annotations
 
+from dataclasses import replace
 from typing import Optional
 
 from excel2pycl.src.cell import Cell
@@ -101,7 +102,9 @@ class Parser:
         context._sheets_size = excel.get_sheets_size()
 
         if self._entrypoint_cell:
-            CellTranslator.translate(self._entrypoint_cell, excel, context)
+            # translating normalises the cell in place (sheet title -> sheet number, value): work on a copy, so that
+            # the setting still names the sheet when another workbook is translated afterwards
+            CellTranslator.translate(replace(self._entrypoint_cell), excel, context)
         else:
             CellTranslator.translate_file(excel, context)
 
